@@ -26,7 +26,17 @@ The oracle is the documentation: Scenario.sceneFromBytes / simulationFromBytes r
 SerializationError "if the scene could not be properly decoded", docs/api.rst says the
 deserialization APIs "can be used with untrusted data", Simulation.valuesHaveDiverged
 promises "the distance between the actual and expected values is greater than
-divergenceTolerance".  models/codec_c18.py only labels which field a fault hit.
+divergenceTolerance".  models/codec_c18.py only labels which field a fault hit (and states
+the narrowest-width rule of the int encoding, checked on single values).
+
+Not judged (counted in the coverage instead): a corrupted REPLAY whose bytes decode to a wrong
+but well-formed value on which the program fails later, outside the decoding code
+(`rc_downstream`); a truncated replay that ends on a value boundary (documented: the run
+continues unscripted).  Decoding is a function of the bytes, so scenes of one program with
+identical encodings are fault-enumerated once (`duplicate_encodings`).  A decode still
+computing after FAST_TIMEOUT CPU seconds is re-run with DECODE_TIMEOUT before it is called a
+hang; after HANG_REPEATS confirmed hangs at the same (offset, edit) of a program the later
+scenes of that program skip that edit (`hang_edits_skipped`, then `exhaustive` is false).
 """
 
 from __future__ import annotations
@@ -53,7 +63,9 @@ ENUM_BUDGET = 300.0  # seconds per program for generating its scenes
 MAX_SCENES = 4000  # per program; the family is built to stay far below (cap => HarnessError)
 DECODE_TIMEOUT = 5.0  # CPU seconds: a decode (normally < 1 ms) still computing after this long is a hang
 FAST_TIMEOUT = 1.0  # first look; a decode exceeding it is re-run with DECODE_TIMEOUT before it is called a hang
+REPLAY_FAULT_RECORDINGS_DIV = {"quick": 1, "thorough": 2}  # same, for recordings with divergence data (long, homogeneous)
 REPLAY_FAULT_RECORDINGS = {"quick": 2, "thorough": 30}  # per program: the first recordings (enumeration order) get every replay fault
+DIV_SHARDS = {"quick": 4, "thorough": 12}  # slices of the perturbation points of a divergence program (parallelism only)
 HANG_REPEATS = 2  # after this many confirmed hangs at the same (offset, edit) of a program, later scenes skip that edit
 RSS_GROWTH_LIMIT_KB = 400 * 1024  # a single decode growing the process by more is reported
 EDITS = (("xor01", lambda b: b ^ 0x01), ("xor80", lambda b: b ^ 0x80), ("zero", lambda b: 0x00), ("ff", lambda b: 0xFF))
@@ -327,7 +339,7 @@ def new_stats():
         "truncations": 0, "trunc_refused": 0, "trunc_accepted": 0, "trunc_escape": 0,
         "corruptions": 0, "corr_refused": 0, "corr_scene": 0, "corr_escape": 0, "corr_noop": 0, "corr_scene_changed": 0,
         "header_corruptions": 0,
-        "foreign": 0, "foreign_refused": 0, "option_variants": 0, "option_refused": 0,
+        "foreign": 0, "foreign_refused": 0, "foreign_same_hash": 0, "option_variants": 0, "option_refused": 0,
         "int_classes": {}, "int_values": [], "fields": {}, "unparsed_layouts": 0, "decode_rng_draws": 0,
         "value_codec": 0,
     }
@@ -636,7 +648,7 @@ def check_foreign(item):
         if fname == name:
             continue
         if tuple(fhash) == mine:
-            st["foreign"] += 0  # identical AST and options: the same scenario as far as the format is concerned
+            st["foreign_same_hash"] += 1  # identical AST and options: the same scenario as far as the format is concerned
             continue
         out = decode(scen, bytes.fromhex(fhex))
         st["foreign"] += 1
@@ -867,7 +879,10 @@ def _raised_while_decoding(e):
 
 
 def check_dynamic(item):
-    prog, tier, only = item
+    """item = (program, tier, only[, shard]); shard = (i, n): this worker does the i-th of n slices of
+    the perturbation points of a divergence program (slice 0 also does everything else)."""
+    prog, tier, only = item[:3]
+    shard = item[3] if len(item) > 3 else (0, 1)
     idx, name, feat, text, mode, steps, div = prog
     st = new_dyn_stats()
     viol = []
@@ -879,9 +894,10 @@ def check_dynamic(item):
     except Exception as e:  # noqa: BLE001
         raise HarnessError(f"C18 dynamic program {name} does not compile: {e!r}\n{text}")
     scenes, _ = enumerate_scenes(scenA, mode, tier)
-    st["scenes"] = len(scenes)
+    st["scenes"] = len(scenes) if shard[0] == 0 else 0
     simulator = C18Simulator()
     rmode = "lattice" if mode == "lattice" else "exact"
+    ordinal = 0  # recordings of this program so far (enumeration order)
     for origin, scene in scenes:
         if only is not None and _origin_json(origin) != only.get("origin"):
             continue
@@ -908,17 +924,28 @@ def check_dynamic(item):
                 if only is not None and path != only.get("path"):
                     continue
                 sim, log = out[1], out[2]
-                st["recordings"] += 1
-                st["rt_values"] += sim.rt_values
-                check_recording(prog, scenA, scenB, simulator, origin, scene, path, sim, log, st, viol, tier, only)
+                ordinal += 1
+                if shard[0] == 0:
+                    st["recordings"] += 1
+                    st["rt_values"] += sim.rt_values
+                check_recording(prog, scenA, scenB, simulator, origin, scene, path, sim, log, st, viol, tier, only, shard, ordinal)
             if stats.capped:
                 raise HarnessError(f"{name}: run exploration capped")
     res["wall"] = time.time() - t0
     return res
 
 
-def check_recording(prog, scenA, scenB, simulator, origin, scene, path, sim, log, st, viol, tier, only):
+def check_recording(prog, scenA, scenB, simulator, origin, scene, path, sim, log, st, viol, tier, only, shard=(0, 1), ordinal=1):
     idx, name, feat, text, mode, steps, div = prog
+    do_faults = bool(only) or ordinal <= (REPLAY_FAULT_RECORDINGS_DIV[tier] if div else REPLAY_FAULT_RECORDINGS[tier])
+    if shard[0] != 0:
+        # other slices: only their share of the replay faults and of the perturbations
+        b = {"origin": _origin_json(origin), "path": path, "replay_hex": sim.getReplay().hex()}
+        if do_faults:
+            check_replay_faults(prog, simulator, scene, sim.getReplay(), list(sim.spans), None, st, viol, b, {"enableDivergenceCheck": div}, shard)
+        if div:
+            check_divergence(prog, scene, sim.getReplay(), sim, st, viol, b, tier, only, shard)
+        return
     view0 = sim_view(sim, log)
     replay = sim.getReplay()
     spans = list(sim.spans)
@@ -957,9 +984,9 @@ def check_recording(prog, scenA, scenB, simulator, origin, scene, path, sim, log
                 else:
                     st["replays_equal"] += 1
 
-    if want in (None, "replay-corruption") and (only or st["recordings"] <= (1 if div and tier == "quick" else REPLAY_FAULT_RECORDINGS[tier])):
+    if want in (None, "replay-corruption") and do_faults:
         st["recordings_fault_enumerated"] += 1
-        check_replay_faults(prog, simulator, scene, replay, spans, view0, st, viol, base, kw)
+        check_replay_faults(prog, simulator, scene, replay, spans, view0, st, viol, base, kw, shard)
         if simdata is not None:
             # every prefix of simulationToBytes that ends before the replay body must be refused
             scene_len = len(simdata) - len(replay)
@@ -976,7 +1003,7 @@ def check_recording(prog, scenA, scenB, simulator, origin, scene, path, sim, log
 
     # (5) divergence
     if div and want in (None, "divergence"):
-        check_divergence(prog, scene, replay, sim, st, viol, base, tier, only)
+        check_divergence(prog, scene, replay, sim, st, viol, base, tier, only, shard)
 
 
 def _from_bytes(scenario, data, simulator, steps, which, kw):
@@ -1005,12 +1032,14 @@ def _from_bytes(scenario, data, simulator, steps, which, kw):
     return ("sim", sim, list(dyn.probe.STATE.log)), len(ex.points)
 
 
-def check_replay_faults(prog, simulator, scene, replay, spans, view0, st, viol, base, kw):
+def check_replay_faults(prog, simulator, scene, replay, spans, view0, st, viol, base, kw, shard=(0, 1)):
     """Every truncation and single-byte edit of the replay: completes, is rejected, or raises
     SerializationError / DivergenceError — nothing else."""
     idx, name, feat, text, mode, steps, div = prog
     fields = codec.replay_layout(replay, spans)
     for k in range(len(replay)):
+        if k % shard[1] != shard[0]:
+            continue
         out, _ = replay_outcome(simulator, scene, steps, replay[:k], 0, **kw)
         st["replay_truncations"] += 1
         kind = codec.field_at(fields, k)
@@ -1025,6 +1054,8 @@ def check_replay_faults(prog, simulator, scene, replay, spans, view0, st, viol, 
         else:
             viol.append((f"replay-truncation-{_outcome_sig(out)}:{kind}", f"{k}-byte prefix of replay {replay.hex()} (cut inside {kind}): {out}\n{text}", _dcase(prog, what="replay-corruption", cut=k, **base)))
     for off in range(len(replay)):
+        if off % shard[1] != shard[0]:
+            continue
         kind = codec.field_at(fields, off)
         for ename, edit in EDITS:
             nb = edit(replay[off])
@@ -1068,13 +1099,17 @@ def divergence_points(sim):
     return pts
 
 
-def check_divergence(prog, scene, replay, sim, st, viol, base, tier, only):
+def check_divergence(prog, scene, replay, sim, st, viol, base, tier, only, shard=(0, 1)):
     from scenic.core.vectors import Vector
 
     idx, name, feat, text, mode, steps, div = prog
     final_time = sim.currentTime
     nobj0 = len(scene.objects)
     pts = [p for p in divergence_points(sim) if p[0] < nobj0]
+    for key in {p[1] if p[2] is None else f"{p[1]}.{'xyz'[p[2]]}" for p in pts}:
+        st["div_props"].setdefault(key, 0)
+    if only is None:
+        pts = pts[shard[0] :: shard[1]]
     deltas = []
     for tol in (TOL, 0):
         mags = (TOL / 2, 2 * TOL) if tol else (TINY, 0.25)
@@ -1117,7 +1152,7 @@ def check_divergence(prog, scene, replay, sim, st, viol, base, tier, only):
                                  f"expected {'DivergenceError' if expect else 'no divergence'} (|delta| {'>' if expect else '<='} tolerance), got {out[0]}{(': ' + out[1]) if got else ''}\n{text}",
                                  _dcase(prog, what="divergence", pert=[oi, prop, comp, t, tol, delta], **base)))
     # continueAfterDivergence: no exception, the run completes
-    if only is None and pts:
+    if only is None and pts and shard[0] == 0:
         oi, prop, comp = pts[0]
 
         def perturb(i, p, time_, value):
@@ -1136,6 +1171,11 @@ def check_divergence(prog, scene, replay, sim, st, viol, base, tier, only):
 # ---------------------------------------------------------------------------------
 
 
+def check_item(item):
+    kind, payload = item
+    return kind, (check_static(payload) if kind == "static" else check_dynamic(payload))
+
+
 def run(ctx):
     import gc
 
@@ -1151,19 +1191,24 @@ def run(ctx):
     dtot = new_dyn_stats()
     walls = []
 
-    # value codecs first (cheap, in-process) together with the static programs in the pool
-    items = ctx.rotate([(p, tier, True) for p in static])
+    # one pass over the pool: the sliced divergence programs first (longest), then everything else
+    nshard = DIV_SHARDS[tier]
+    heavy = [("dynamic", (p, tier, None, (i, nshard))) for p in dynamic if p[6] for i in range(nshard)]
+    rest = ctx.rotate([("static", (p, tier, True)) for p in static] + [("dynamic", (p, tier, None)) for p in dynamic if not p[6]])
     results = []
-    for r in ctx.pmap(check_static, items, chunksize=1):
-        results.append(r)
-        merge_stats(tot, r["stats"])
+    for kind, r in ctx.pmap(check_item, heavy + rest, chunksize=1):
         walls.append((round(r["wall"], 2), r["name"]))
+        if kind == "static":
+            results.append(r)
+            merge_stats(tot, r["stats"])
+        else:
+            merge_stats(dtot, r["stats"])
         for sig, desc, case in r["violations"]:
             ctx.violation(sig, desc, case)
 
     foreign = [(r["name"], r["hash"], r["sample"]) for r in results if r["sample"]]
     by_name = {p[1]: p for p in static}
-    fitems = ctx.rotate([(by_name[r["name"]], foreign) for r in results])
+    fitems = [(by_name[r["name"]], foreign) for r in results]
     for r in ctx.pmap(check_foreign, fitems, chunksize=4):
         merge_stats(tot, r["stats"])
         for sig, desc, case in r["violations"]:
@@ -1173,13 +1218,6 @@ def run(ctx):
     merge_stats(tot, vc["stats"])
     for sig, desc, case in vc["violations"]:
         ctx.violation(sig, desc, case)
-
-    ditems = ctx.rotate([(p, tier, None) for p in dynamic])
-    for r in ctx.pmap(check_dynamic, ditems, chunksize=1):
-        merge_stats(dtot, r["stats"])
-        walls.append((round(r["wall"], 2), r["name"]))
-        for sig, desc, case in r["violations"]:
-            ctx.violation(sig, desc, case)
 
     decodes = tot["roundtrips"] + tot["roundtrips_recompiled"] + tot["truncations"] + tot["corruptions"] + tot["foreign"] + tot["option_variants"]
     refused = tot["trunc_refused"] + tot["corr_refused"] + tot["foreign_refused"] + tot["option_refused"]
@@ -1213,7 +1251,8 @@ def run(ctx):
         "perturbation. non-trivial = corruption decoding to a DIFFERENT scene, or perturbed replay reported divergent",
         samples=[{"program": static[0][1], "text": static[0][3]}, {"program": static[len(static) // 2][1], "text": static[len(static) // 2][3]}, {"program": dynamic[0][1], "text": dynamic[0][3]}],
         programs_static=len(static), programs_dynamic=len(dynamic),
-        scenes=tot["scenes"], scenes_rejected=tot["rejected"], encodings=tot["encodings"], encoded_bytes=tot["bytes"], max_encoding_len=tot["max_len"],
+        scenes=tot["scenes"], scenes_rejected=tot["rejected"], encodings=tot["encodings"], encodings_fault_enumerated=tot["encodings_enumerated"],
+        duplicate_encodings=tot["duplicate_encodings"], hang_edits_skipped=tot["hang_skipped"], foreign_same_hash=tot["foreign_same_hash"], encoded_bytes=tot["bytes"], max_encoding_len=tot["max_len"],
         roundtrips=tot["roundtrips"], roundtrips_recompiled=tot["roundtrips_recompiled"],
         truncations=tot["truncations"], truncations_refused=tot["trunc_refused"], truncations_accepted=tot["trunc_accepted"],
         corruptions=tot["corruptions"], corruptions_refused=tot["corr_refused"], corruptions_scene=tot["corr_scene"], corruptions_scene_changed=tot["corr_scene_changed"],
@@ -1225,6 +1264,9 @@ def run(ctx):
         dynamic=dtot, slowest=walls[:5],
         bounds={"lattice_n": LATTICE_N, "seeds": SEEDS[tier], "edits": [e[0] for e in EDITS], "tolerances": [0, TOL], "deltas": [TOL / 2, 2 * TOL, TINY, 0.25]},
     )
+    if tot["hang_skipped"]:
+        ctx.cov["exhaustive"] = False
+        ctx.cov["cap"] = f"{tot['hang_skipped']} byte edits skipped after {HANG_REPEATS} confirmed hangs at the same (offset, edit) of the same program"
     ctx.assumptions += [
         "CPython random.randint/choices/choice reduce to random()/_randbelow() (rng_selftest)",
         "Normal / mutate / mesh-region sampling (gauss, numpy) are covered with fixed seeds 0..k-1, all enumerated; every other program with every RNG outcome",
